@@ -190,8 +190,24 @@ class Driver:
         self.G = G
         self.plugin_mod = plugin
         self.extract = extract
-        self.out = stream.String()
-        self.err = stream.String()
+        # the plugin's own stream class (what it writes goes through gdb.write, as in a real session); two stream tokens keep
+        # normal and error output apart for the comparisons
+        class PluginStream(plugin.Stream):
+            def __init__(self, token):
+                super().__init__(token)
+                self._buf, self._seen = '', 0
+
+            @property
+            def buffer(self):
+                w = G.state.written
+                if self._seen > len(w):
+                    self._buf, self._seen = '', 0
+                if self._seen < len(w):
+                    self._buf += ''.join(t for st, t in w[self._seen:] if st == self.stream)
+                    self._seen = len(w)
+                return self._buf
+        self.out = PluginStream('wdv-out')
+        self.err = PluginStream('wdv-err')
         self.output = Output(False, show_unprocessed, self.out, self.err)
         self.cm = ConnectionManager()
         f = matcher.parse(filter_text).simplify() if filter_text else matcher.always
